@@ -19,6 +19,7 @@ from vlib.indic_vals import NA, D
 EXEMPT = {"minmax": "documented: an extremum needs `order` confirming candles"}
 N_DEFAULT = 60
 N_LONG = 130
+N_XLONG = 260
 
 
 def int_params(fn: ast.FunctionDef):
@@ -40,7 +41,36 @@ def int_params(fn: ast.FunctionDef):
     return out
 
 
-def variants(fn: ast.FunctionDef, tier: str):
+def nan_stripping_matypes(repo: Repo):
+    """matype numbers of ma() whose implementation strips NaNs with a boolean mask (x[~isnan(x)]) - read from the dispatcher"""
+    try:
+        ma = repo.func("jesse/indicators/ma.py", "ma")
+    except AnalysisError:
+        return []
+    out = []
+    for node in ast.walk(ma):
+        if not isinstance(node, ast.If):
+            continue
+        t = node.test
+        nums = []
+        for c in ([t] if isinstance(t, ast.Compare) else (t.values if isinstance(t, ast.BoolOp) else [])):
+            if isinstance(c, ast.Compare) and isinstance(c.left, ast.Name) and c.left.id == "matype" and len(c.comparators) == 1 and isinstance(c.comparators[0], ast.Constant):
+                nums.append(c.comparators[0].value)
+        mods = [a.name for st in node.body if isinstance(st, ast.ImportFrom) and st.level == 1 for a in st.names]
+        for m in mods:
+            rel = f"jesse/indicators/{m}.py"
+            try:
+                tree = repo.module(rel).tree
+            except Exception:
+                continue
+            strips = any(isinstance(n, ast.Subscript) and any(isinstance(x, ast.Call) and isinstance(x.func, ast.Attribute) and x.func.attr == "isnan" for x in ast.walk(n.slice))
+                         for n in ast.walk(tree))
+            if strips:
+                out += [n for n in nums if isinstance(n, int)]
+    return sorted(set(out))
+
+
+def variants(fn: ast.FunctionDef, tier: str, strip_types=()):
     vs = [("defaults", {})]
     ip = int_params(fn)
     if ip:
@@ -60,6 +90,12 @@ def variants(fn: ast.FunctionDef, tier: str):
     mt = ma_params(fn)
     if mt:
         vs.append(("matype=ema", {k: 1 for k in mt}))
+        # moving averages that strip NaNs from their input: fed with a computed series that can contain NaN (0/0 on a flat candle)
+        for n in strip_types:
+            vs.append((f"matype={n}", {k: n for k in mt}))
+    # the other source columns: volume can be zero on a valid (no-trade) candle
+    if any(a.arg == "source_type" for a in fn.args.args):
+        vs.append(("source_type=volume", {"source_type": "volume"}))
     return [(n, o) for n, o in vs if n == "defaults" or o]
 
 
@@ -83,12 +119,18 @@ def analyse_one(args):
             if pn == name:
                 fn = pfn
     res = []
-    for vname, over in variants(fn, tier):
+    for vname, over in variants(fn, tier, nan_stripping_matypes(repo)):
         r = None
-        for n in (N_DEFAULT, N_LONG):
+        for n in (N_DEFAULT, N_LONG, N_XLONG):
             r = IR.run_indicator(repo, rel, fn, n, True, overrides=over)
-            if r[0] == "ok" or r[0] == "undecided":
+            if r[0] == "undecided":
                 break
+            if r[0] == "ok":
+                # an output without a single computed element (the series is shorter than the indicator's look-back) decides nothing
+                series = [v for fname, v in IR.fields_of(r[1]) if isinstance(v, NA) and v.ndim == 1]
+                if not series or any(not (isinstance(x, float) and x != x) for v in series for x in v.data):
+                    break
+                r = ("undecided", f"every element of the output is NaN for {n} candles (look-back longer than the analysed series)")
         if r[0] != "ok":
             res.append((vname, over, r[0], r[1], None))
             continue
@@ -109,8 +151,10 @@ def run(repo: Repo, rep, tier: str):
     rid = "C13-R1"
     rep.rule(rid, "dependence analysis of every public indicator (sequential=True; default parameters and shifted periods): no element "
                   "i of any returned series may depend - through data or control flow - on a candle j > i")
-    rep.assume("x[~isnan(x)] (NaN-stripping of a warm-up padded series): a computed element is taken to be a number, only the constant NaN padding is removed (generic finite inputs)")
-    rep.assume("candle values are finite (isnan/isinf of a raw candle value is False); x*0 carries no dependence; slices are copies")
+    rep.assume("valid candles: prices > 0, volume >= 0 (flat candles and no-trade candles are legal); a computed value may be NaN / infinite only through a denominator that is not provably "
+               "positive (sign analysis, vlib/indic_finite.py; zero-tests in np.where / if guards are honoured) or a logarithm / negative power of such a value")
+    rep.assume("x[~isnan(x)] (NaN-stripping of a warm-up padded series): the constant NaN padding is removed; a computed element that may be NaN makes the position of every surviving element depend on it")
+    rep.assume("candle values are finite (isnan/isinf of a raw candle value is False); x*0 carries no dependence unless x may be infinite / NaN (0*inf = NaN); slices are copies")
     rep.assume("dependence is a may-analysis: a reported look-ahead is a syntactic flow from candle j > i to element i (all findings on the unchanged tree were confirmed against the running code)")
     inds = [(n, rel, fn) for n, rel, fn in IR.public_indicators(repo) if any(a.arg == "sequential" for a in fn.args.args)]
     jobs = [(repo.root, fn.name, rel, tier) for n, rel, fn in inds]
